@@ -737,7 +737,7 @@ pub fn cyclic_reference(env: &Env, max_iter: u32) -> Vec<Outcome> {
         seen
     };
     let on_pure_nocyc_cycle: Vec<bool> = (0..n).map(|q| kinds[q] == Kind::NoCyc && reach_nocyc(q)[q]).collect();
-    let monotone = env.prog.nodes.iter().all(|(_, e)| is_monotone(e));
+    let monotone = env.prog.nodes.iter().all(|(_, e)| is_monotone_live(e, env));
     (0..n)
         .map(|q| {
             let r = reach(q);
@@ -773,6 +773,27 @@ pub fn is_monotone(e: &E) -> bool {
         E::C(_) | E::In(_) | E::Call(_) => true,
         E::BOr(a, b) | E::BAnd(a, b) => is_monotone(a) && is_monotone(b),
         E::If(c, a, b) => matches!(**c, E::In(_)) && is_monotone(a) && is_monotone(b),
+        _ => false,
+    }
+}
+
+/// monotone in the branches that are LIVE under the current inputs (conditions are inputs): a
+/// program whose non-monotone operations sit in dead branches has a least fixpoint now, whatever
+/// happened in earlier revisions
+pub fn is_monotone_live(e: &E, env: &Env) -> bool {
+    match e {
+        E::C(_) | E::In(_) | E::Call(_) => true,
+        E::BOr(a, b) | E::BAnd(a, b) => is_monotone_live(a, env) && is_monotone_live(b, env),
+        E::If(c, a, b) => match **c {
+            E::In(i) => {
+                if env.inputs[i] % 2 == 1 {
+                    is_monotone_live(a, env)
+                } else {
+                    is_monotone_live(b, env)
+                }
+            }
+            _ => false,
+        },
         _ => false,
     }
 }
@@ -832,6 +853,66 @@ fn fallback_reference(env: &Env) -> Vec<Outcome> {
         v
     }
     (0..n).map(|q| Outcome::Val(RV::num(go(q, env, &mut vals)))).collect()
+}
+
+/// call graph of a cyclic-profile program under the current inputs (conditions are
+/// input-controlled): (`on_cycle[q]`, `reach[q][x]` = a non-empty path q → x exists)
+pub fn cycle_info(env: &Env) -> (Vec<bool>, Vec<Vec<bool>>) {
+    let n = env.prog.nodes.len();
+    let dummy = vec![0u32; n];
+    let mut graph = vec![vec![]; n];
+    for q in 0..n {
+        calls_of(&env.prog.nodes[q].1, env, &dummy, &mut graph[q]);
+    }
+    let reach: Vec<Vec<bool>> = (0..n)
+        .map(|from| {
+            let mut seen = vec![false; n];
+            let mut st = vec![from];
+            while let Some(x) = st.pop() {
+                for &y in &graph[x] {
+                    if !seen[y] {
+                        seen[y] = true;
+                        st.push(y);
+                    }
+                }
+            }
+            seen
+        })
+        .collect();
+    ((0..n).map(|q| reach[q][q]).collect(), reach)
+}
+
+/// for a fallback program under the current inputs: does node `q` lie on a cycle, or can it reach
+/// a node that does?  (Only such a node's value can be touched by known finding C13/kf1 — a
+/// participant that does not return its fallback; a node whose cone holds no cycle at all has a
+/// plain from-scratch value and a mismatch there is something else.)
+pub fn fallback_cone_has_cycle(env: &Env) -> Vec<bool> {
+    let n = env.prog.nodes.len();
+    let dummy = vec![0u32; n];
+    let mut graph = vec![vec![]; n];
+    for q in 0..n {
+        calls_of(&env.prog.nodes[q].1, env, &dummy, &mut graph[q]);
+    }
+    let reach = |from: usize| -> Vec<bool> {
+        let mut seen = vec![false; n];
+        let mut st = vec![from];
+        while let Some(x) = st.pop() {
+            for &y in &graph[x] {
+                if !seen[y] {
+                    seen[y] = true;
+                    st.push(y);
+                }
+            }
+        }
+        seen
+    };
+    let on_cycle: Vec<bool> = (0..n).map(|q| reach(q)[q]).collect();
+    (0..n)
+        .map(|q| {
+            let r = reach(q);
+            (0..n).any(|x| (x == q || r[x]) && on_cycle[x])
+        })
+        .collect()
 }
 
 // ---------------------------------------------------------------------------------------------
@@ -1043,6 +1124,9 @@ pub fn gen_case(r: &mut Rng, p: Profile) -> Case {
     if p == Profile::Acc {
         return gen_acc_case(r);
     }
+    if matches!(p, Profile::Core3 | Profile::Full) && r.chance(1, 6) {
+        return gen_durswitch_case(r, p);
+    }
     let n = 2 + r.usize(7);
     let mut prog = Prog::empty();
     prog.ninputs = 1 + r.usize(4);
@@ -1073,7 +1157,7 @@ pub fn gen_case(r: &mut Rng, p: Profile) -> Case {
                 // one third: "late specify" order with constant fields (identity literal >= 2), so
                 // that the struct exists before the creator has read anything
                 let mk = if r.chance(1, 3) {
-                    E::Mk(Box::new(E::C(2 + r.below(2) as u32)), Box::new(E::C(r.below(4) as u32)), Box::new(E::In(r.usize(prog.ninputs))), small(r, &prog))
+                    E::Mk(Box::new(E::C(1000 + r.below(2) as u32)), Box::new(E::C(r.below(4) as u32)), Box::new(E::In(r.usize(prog.ninputs))), small(r, &prog))
                 } else {
                     E::Mk(small(r, &prog), small(r, &prog), Box::new(E::In(r.usize(prog.ninputs))), small(r, &prog))
                 };
@@ -1148,6 +1232,101 @@ pub fn gen_case(r: &mut Rng, p: Profile) -> Case {
             }
         } else {
             ops.push(Op::Get(r.usize(n)));
+        }
+    }
+    Case { prog, init, ops }
+}
+
+/// directed family "durability switch": node 0 reads, under a (usually durable) flag input, either a
+/// durable input or something less durable (an untracked cell, a low-durability input, a constant);
+/// the histories flip the flag while the two alternatives hold EQUAL values (so that the new memo
+/// is a backdating candidate whose durability dropped), then change only the newly read source with
+/// a low-durability write and ask a consumer again.
+fn gen_durswitch_case(r: &mut Rng, p: Profile) -> Case {
+    let mut prog = Prog::empty();
+    prog.ninputs = 3 + r.usize(2);
+    prog.ncells = 1 + r.usize(2);
+    let alt_kind = r.below(4);
+    let alt = match alt_kind {
+        0 | 1 => E::Cell(0),
+        2 => E::In(2),
+        _ => E::C(r.below(4) as u32),
+    };
+    let sw = if r.chance(1, 2) {
+        E::If(Box::new(E::In(0)), Box::new(alt), Box::new(E::In(1)))
+    } else {
+        E::If(Box::new(E::In(0)), Box::new(E::In(1)), Box::new(alt))
+    };
+    let n = 2 + r.usize(4);
+    prog.nodes.push(([Kind::Plain, Kind::Plain, Kind::NoEq, Kind::Lru][r.usize(4)], sw));
+    for k in 1..n {
+        let kind = [Kind::Plain, Kind::Plain, Kind::NoEq, Kind::Lru][r.usize(4)];
+        let e = if k == 1 || r.chance(1, 2) {
+            let j = if r.chance(1, 2) { 0 } else { r.usize(k) };
+            match r.below(4) {
+                0 | 1 => E::Call(j),
+                2 => E::Add(Box::new(E::Call(j)), Box::new(E::C(r.below(4) as u32))),
+                _ => E::Max(Box::new(E::Call(j)), Box::new(E::In(r.usize(prog.ninputs)))),
+            }
+        } else {
+            gen_e(r, p, k, &prog, 2, 0)
+        };
+        prog.nodes.push((kind, e));
+    }
+    let dh = 1 + r.below(3) as u8;
+    let mut init: Vec<(u32, u8)> = vec![
+        (r.below(2) as u32, if r.chance(5, 6) { dh } else { 0 }),
+        (r.below(4) as u32, if r.chance(5, 6) { 1 + r.below(3) as u8 } else { 0 }),
+        (r.below(4) as u32, if r.chance(2, 3) { 0 } else { r.below(4) as u8 }),
+    ];
+    while init.len() < prog.ninputs {
+        init.push((r.below(4) as u32, if r.chance(1, 2) { 0 } else { r.below(4) as u8 }));
+    }
+    let mut cur: Vec<u32> = init.iter().map(|x| x.0).collect();
+    let mut ops = vec![];
+    let consumer = |r: &mut Rng| if r.chance(1, 4) { 0 } else { 1 + r.usize(n - 1) };
+    for _ in 0..2 + r.usize(4) {
+        ops.push(Op::Get(consumer(r)));
+        // make the alternative equal to the durable input most of the time
+        let eq = if r.chance(3, 4) { cur[1] } else { r.below(4) as u32 };
+        match alt_kind {
+            0 | 1 => ops.push(Op::Cell(0, eq)),
+            2 => {
+                cur[2] = eq;
+                ops.push(Op::Set(2, eq, if r.chance(2, 3) { None } else { Some(0) }));
+            }
+            _ => {}
+        }
+        // flip the flag, usually keeping its durability
+        cur[0] = 1 - cur[0] % 2;
+        ops.push(Op::Set(0, cur[0], if r.chance(3, 4) { None } else { Some(r.below(4) as u8) }));
+        if r.chance(3, 4) {
+            ops.push(Op::Get(consumer(r)));
+        }
+        // change only what is read now (or nothing), with a low-durability revision bump
+        match r.below(4) {
+            0 | 1 => {
+                ops.push(Op::Cell(0, r.below(4) as u32));
+                ops.push(Op::Synth(0));
+            }
+            2 => {
+                let i = 2 + r.usize(prog.ninputs - 2);
+                cur[i] = r.below(4) as u32;
+                ops.push(Op::Set(i, cur[i], if r.chance(2, 3) { None } else { Some(0) }));
+            }
+            _ => {
+                cur[1] = r.below(4) as u32;
+                ops.push(Op::Set(1, cur[1], None));
+            }
+        }
+        ops.push(Op::Get(consumer(r)));
+        for _ in 0..r.usize(3) {
+            match r.below(6) {
+                0 => ops.push(Op::Synth(r.below(4) as u8)),
+                1 => ops.push(Op::Evict),
+                2 => ops.push(Op::LruCap(r.usize(4))),
+                _ => ops.push(Op::Get(r.usize(n))),
+            }
         }
     }
     Case { prog, init, ops }
@@ -1236,7 +1415,9 @@ pub fn gen_cycle_case(r: &mut Rng) -> Case {
             _ => {
                 // an increasing counter through a cycle: (call + 1) mod 256, cut by an input
                 let j = r.usize(n);
-                let inc = E::Add(Box::new(E::Call(j)), Box::new(E::C(1)));
+                // half of the counters join two calls, so that diverging revisions have nested heads
+                let src = if r.chance(1, 2) { E::Call(j) } else { E::BOr(Box::new(E::Call(j)), Box::new(E::Call(r.usize(n)))) };
+                let inc = E::Add(Box::new(src), Box::new(E::C(1)));
                 (Kind::Fix, E::If(Box::new(E::In(0)), Box::new(inc), Box::new(gen_mono(r, n, prog.ninputs, 2))))
             }
         };
@@ -1264,6 +1445,40 @@ pub fn gen_cycle_case(r: &mut Rng) -> Case {
 /// every k = 1..=kmax ("the k-th such user call of that op panics") gives one derived case.
 pub fn gen_inject_cases(r: &mut Rng, kmax: u32) -> Vec<Case> {
     let mut base = gen_case(r, Profile::Full);
+    if r.chance(1, 3) {
+        // directed base: a creator whose struct's tracked field follows an input, readers through
+        // a tracked function on the struct / the field / the specifiable function, and a history
+        // that re-creates the struct with a changed field (where `update` runs user `PartialEq`)
+        let mut prog = Prog::empty();
+        prog.ninputs = 2 + r.usize(2);
+        prog.ncells = 1;
+        prog.on_ts = if r.chance(1, 2) { E::SelfV } else { E::Add(Box::new(E::SelfV), Box::new(E::In(1))) };
+        prog.spec = E::SelfV;
+        let val = if r.chance(2, 3) { E::In(0) } else { E::Add(Box::new(E::In(0)), Box::new(E::In(1))) };
+        let flag = if r.chance(2, 3) { E::C(0) } else { E::In(1) };
+        prog.nodes.push((Kind::Plain, E::Mk(Box::new(E::C(0)), Box::new(val), Box::new(flag), Box::new(E::C(r.below(4) as u32)))));
+        for _ in 0..1 + r.usize(3) {
+            let src = Box::new(E::Call(0));
+            let e = match r.below(4) {
+                0 => E::OnTs(src),
+                1 => E::TsV(src),
+                2 => E::Spec(src),
+                _ => E::Add(Box::new(E::OnTs(src.clone())), Box::new(E::TsV(src))),
+            };
+            prog.nodes.push(([Kind::Plain, Kind::NoEq, Kind::Lru][r.usize(3)], e));
+        }
+        let n = prog.nodes.len();
+        let init: Vec<(u32, u8)> = (0..prog.ninputs).map(|_| (r.below(4) as u32, 0)).collect();
+        let mut ops = vec![];
+        let mut cur0 = init[0].0;
+        for _ in 0..2 + r.usize(2) {
+            ops.push(Op::Get(1 + r.usize(n - 1)));
+            cur0 = (cur0 + 1 + r.below(3) as u32) % 4;
+            ops.push(Op::Set(if r.chance(3, 4) { 0 } else { 1 }, cur0, None));
+        }
+        ops.push(Op::Get(1 + r.usize(n - 1)));
+        base = Case { prog, init, ops };
+    }
     base.ops.truncate(12);
     // a cell change is only meaningful together with the revision bump that follows it
     if matches!(base.ops.last(), Some(Op::Cell(..))) {
@@ -1283,6 +1498,13 @@ pub fn gen_inject_cases(r: &mut Rng, kmax: u32) -> Vec<Case> {
             for k in 1..=kmax {
                 let mut c = base.clone();
                 c.ops.insert(p, Op::Inject(w, k));
+                // two thirds: the same request is retried at once, in the SAME revision (a retry
+                // that finds half-updated state is where unwind-safety defects show); the rest
+                // meet whatever the history does next (often a write first)
+                if (p + k as usize) % 3 != 0 {
+                    let retry = c.ops[p + 1].clone();
+                    c.ops.insert(p + 2, retry);
+                }
                 out.push(c);
             }
         }
